@@ -261,17 +261,34 @@ def sweep_vectors():
     return uniq
 
 
+def sweep_variants(cls):
+    """The 'operations on one value' alphabet of the pair sweep: every accessor-call variant on the
+    object o0, a few on its twin o1 (built from the same fields in another order), and the
+    comparison / hashing operations between the two."""
+    ops = [{"op": "call", "obj": "o0", "m": m, "args": a} for m, a in calls_for(cls)]
+    for m, a in calls_for(cls):
+        if (m, tuple(sorted(a.items()))) in ((("clean_vector"), ()), ("scores", ()), ("as_json", (("minimal", True),)),
+                                             ("severities", ())):
+            ops.append({"op": "call", "obj": "o1", "m": m, "args": a})
+    ops += [{"op": "eq", "a": "o0", "b": "o1"}, {"op": "eq", "a": "o1", "b": "o0"}, {"op": "hash_eq", "a": "o0", "b": "o1"},
+            {"op": "in_set", "a": "o0", "b": "o1"}, {"op": "eq", "a": "o0", "b": {"lit": "vector_of", "v": "o0"}},
+            {"op": "hash_twice", "a": "o0"}]
+    return ops
+
+
 def sweep_histories():
     """Enumerated sub-sweeps (both tiers):
-       pairs  -- for every representative vector, every ordered pair (A, B) of accessor calls: A, B, A, B
+       pairs  -- for every representative vector, every ordered pair (A, B) of operations of
+                 sweep_variants(): A, B, A, B
        faults -- for every representative vector, every as_json variant held, every client fault on it,
                  then every accessor call."""
     cases = []
     for cls, s in sweep_vectors():
-        calls = calls_for(cls)
-        for a in range(len(calls)):
-            for b in range(len(calls)):
+        nv = len(sweep_variants(cls))
+        for a in range(nv):
+            for b in range(nv):
                 cases.append(("pair", cls, s, a, b, None))
+        calls = calls_for(cls)
         json_calls = [i for i, (m, _) in enumerate(calls) if m == "as_json"]
         for a in json_calls:
             for how in ("clear", "del", "junk", "junk_all", "add", "update", "popitem"):
@@ -283,7 +300,10 @@ def sweep_histories():
 def sweep_ops(case):
     kind, cls, s, a, b, how = case
     calls = calls_for(cls)
-    ops = [{"op": "new", "cls": cls, "s": s, "as": "o0"}]
+    version = spec.version_of_emitted(s)
+    prefix = spec.PREFIX[version]
+    twin = prefix + "/".join(reversed(s[len(prefix):].split("/")))
+    ops = [{"op": "new", "cls": cls, "s": s, "as": "o0"}, {"op": "new", "cls": cls, "s": twin, "as": "o1"}]
 
     def call(i, hold=None):
         op = {"op": "call", "obj": "o0", "m": calls[i][0], "args": calls[i][1]}
@@ -292,7 +312,8 @@ def sweep_ops(case):
         return op
 
     if kind == "pair":
-        ops += [call(a), call(b), call(a), call(b)]
+        var = sweep_variants(cls)
+        ops += [var[a], var[b], var[a], var[b]]
     else:
         ops += [call(a, "h0"), {"op": "call", "obj": "o0", "m": "as_json", "args": {}, "hold": "h1"}]
         m = {"op": "mutate", "held": "h0", "how": how, "i": 3}
